@@ -152,6 +152,7 @@ def run(tier, seed):
                 chk.diverge("Model.cbor_loads/cbor_enc", f"bytes {b.hex()}: model {mres[:60]} cbor2 {ienc[:60]}", {"hex": b.hex()})
             chk.count("cbor:" + mres[:3])
         R.close()
+    fw.env_invariance(chk, "codec")          # the same seeded cases under -O / -OO, warnings-as-errors, other TZ / locale, a private CA bundle
     return fw.finish(chk, ob, br, TRUSTED,
                      ["CBOR inside authenticator data is in the modelled subset for the structured streams; nesting depth of generated values <= 5",
                       "observation O1 (DESIGN 4): non-canonical CBOR such as half-precision floats re-encodes to a different length, which is outside this property's quantifier"],
